@@ -24,6 +24,12 @@ type genOpts struct {
 	reform   int      // -1 random, 0 no, 1 yes
 	label    string
 	nearReq  bool // required signers differ from a witnessed key hash in one bit
+	// collKind / refs entries of the form "=i" reuse regular input i, "c=j"
+	// (refs only) reuse collateral input j: the SAME UTxO in several sets
+	refs    []string // reference inputs (Babbage+); nil = random
+	dupIn   bool     // repeat the first regular input
+	dupColl bool     // repeat the first collateral input
+	noTag   bool     // never wrap sets in tag 258 (tagged sets reject duplicates)
 }
 
 // nearMiss flips one bit of the first or the last byte of a hash.
@@ -51,7 +57,7 @@ var byronAttrChoices = [][]byte{
 var perturbKinds = []string{"drop-vkey", "drop-vkey", "drop-boot", "extra-vkey", "extra-boot", "wrong-key", "wrong-key",
 	"corrupt-sig", "corrupt-sig", "corrupt-boot-sig", "other-txid", "sig-over-reencoded-body", "sig-over-body-bytes", "dup-vkey",
 	"pk-sig-swap", "short-pk", "short-sig", "long-sig", "boot-wrong-cc", "boot-wrong-attrs", "boot-cc-31", "boot-as-vkey",
-	"boot-short-pk", "boot-short-sig", "drop-all", "dup-wits-key"}
+	"boot-short-pk", "boot-short-sig", "drop-all", "dup-wits-key", "same-key-bad-first", "same-key-bad-last"}
 
 func sign(k *keyT, msg []byte) []byte { return ed25519.Sign(k.priv, msg) }
 
@@ -64,7 +70,7 @@ func genWith(r *vh.Rng, e *eraT, o genOpts) txCase {
 	for i := range keys {
 		keys[i] = newKey(r)
 	}
-	p := &planT{era: e, isValid: !r.Chance(1, 4), setTag: e.SetTag && r.Bool(), validFrom: e.Name != "shelley" && r.Chance(1, 3)}
+	p := &planT{era: e, isValid: !r.Chance(1, 4), setTag: e.SetTag && !o.noTag && r.Bool(), validFrom: e.Name != "shelley" && r.Chance(1, 3)}
 	var utxo []utxoEnt
 	var needs []needT
 	var labels []string
@@ -121,14 +127,74 @@ func genWith(r *vh.Rng, e *eraT, o genOpts) txCase {
 		ck := o.collKind
 		if ck == nil && o.kinds == nil && r.Chance(1, 2) {
 			for i := 0; i < 1+r.Intn(2); i++ {
-				ck = append(ck, vh.PickOne(r, collKinds))
+				if len(p.inputs) > 0 && r.Chance(2, 5) {
+					// the same UTxO as a regular input
+					ck = append(ck, fmt.Sprintf("=%d", r.Intn(len(p.inputs))))
+				} else {
+					ck = append(ck, vh.PickOne(r, collKinds))
+				}
 			}
 		}
+		var cl []string
 		for _, k := range ck {
-			p.collateral = append(p.collateral, mkInput(k, true))
+			if strings.HasPrefix(k, "=") {
+				var i int
+				fmt.Sscanf(k, "=%d", &i)
+				p.collateral = append(p.collateral, p.inputs[i])
+				cl = append(cl, "shared-with-input:"+kinds[i])
+			} else {
+				p.collateral = append(p.collateral, mkInput(k, true))
+				cl = append(cl, k)
+			}
 		}
-		if len(ck) > 0 {
-			labels = append(labels, "coll="+strings.Join(ck, ","))
+		if o.dupColl || (o.collKind == nil && len(p.collateral) > 0 && !p.setTag && r.Chance(1, 20)) {
+			p.collateral = append(p.collateral, p.collateral[0])
+			cl = append(cl, "dup-of-first")
+		}
+		if len(cl) > 0 {
+			labels = append(labels, "coll="+strings.Join(cl, ","))
+		}
+	}
+	if o.dupIn || (o.kinds == nil && len(p.inputs) > 0 && !p.setTag && r.Chance(1, 20)) {
+		p.inputs = append(p.inputs, p.inputs[0])
+		labels = append(labels, "dup-input")
+	}
+	if e.RefInputs {
+		rf := o.refs
+		if rf == nil && o.kinds == nil && r.Chance(1, 3) {
+			for i := 0; i < 1+r.Intn(2); i++ {
+				switch x := r.Intn(10); {
+				case x < 4 && len(p.inputs) > 0:
+					rf = append(rf, fmt.Sprintf("=%d", r.Intn(len(p.inputs))))
+				case x < 7 && len(p.collateral) > 0:
+					rf = append(rf, fmt.Sprintf("c=%d", r.Intn(len(p.collateral))))
+				default:
+					rf = append(rf, vh.PickOne(r, inputKinds))
+				}
+			}
+		}
+		var rl []string
+		for _, k := range rf {
+			var i int
+			switch {
+			case strings.HasPrefix(k, "c="):
+				fmt.Sscanf(k, "c=%d", &i)
+				p.refInputs = append(p.refInputs, p.collateral[i])
+				rl = append(rl, "shared-with-collateral")
+			case strings.HasPrefix(k, "="):
+				fmt.Sscanf(k, "=%d", &i)
+				p.refInputs = append(p.refInputs, p.inputs[i])
+				rl = append(rl, "shared-with-input")
+			default:
+				// a reference input needs no witness: do not record a need
+				n := len(needs)
+				p.refInputs = append(p.refInputs, mkInput(k, false))
+				needs = needs[:n]
+				rl = append(rl, k)
+			}
+		}
+		if len(rl) > 0 {
+			labels = append(labels, "ref="+strings.Join(rl, ","))
 		}
 	}
 	if e.ReqKey14 {
@@ -230,6 +296,7 @@ func genWith(r *vh.Rng, e *eraT, o genOpts) txCase {
 	}
 	cp := func(b []byte) []byte { return append([]byte{}, b...) }
 	dupKey := false
+	noShuffle := false
 	for _, pt := range perts {
 		applied := true
 		switch pt {
@@ -318,6 +385,21 @@ func genWith(r *vh.Rng, e *eraT, o genOpts) txCase {
 				break
 			}
 			vks = append(vks, vks[r.Intn(len(vks))])
+		case "same-key-bad-first", "same-key-bad-last":
+			// two witnesses with the SAME verification key, one signature corrupted
+			if len(vks) == 0 {
+				applied = false
+				break
+			}
+			i := r.Intn(len(vks))
+			bad := vkwT{vks[i].Pk, cp(vks[i].Sig)}
+			bad.Sig[r.Intn(64)%len(bad.Sig)] ^= 1 << uint(r.Intn(8))
+			if pt == "same-key-bad-first" {
+				vks = append(vks[:i:i], append([]vkwT{bad}, vks[i:]...)...)
+			} else {
+				vks = append(vks, bad)
+			}
+			noShuffle = true
 		case "pk-sig-swap":
 			if len(vks) < 2 {
 				applied = false
@@ -406,7 +488,7 @@ func genWith(r *vh.Rng, e *eraT, o genOpts) txCase {
 		}
 	}
 	// order of the witnesses on the wire
-	if r.Bool() {
+	if r.Bool() && !noShuffle {
 		for i := len(vks) - 1; i > 0; i-- {
 			j := r.Intn(i + 1)
 			vks[i], vks[j] = vks[j], vks[i]
@@ -459,6 +541,8 @@ func corpus(r *vh.Rng) []txCase {
 		{"signature over re-encoded body", genOpts{kinds: []string{"key"}, perturb: []string{"sig-over-reencoded-body"}, reform: 1}, false},
 		{"non-canonical body, valid", genOpts{kinds: []string{"key", "byron"}, perturb: []string{}, reform: 1}, false},
 		{"witness-set key 0 twice, first holds a bad witness", genOpts{kinds: []string{"key"}, perturb: []string{"dup-wits-key"}}, false},
+		{"same key twice, corrupted signature first", genOpts{kinds: []string{"key", "key"}, perturb: []string{"same-key-bad-first"}}, false},
+		{"same key twice, corrupted signature last", genOpts{kinds: []string{"key", "key"}, perturb: []string{"same-key-bad-last"}}, false},
 		{"duplicate witness", genOpts{kinds: []string{"key"}, perturb: []string{"dup-vkey"}}, false},
 		{"withdrawal key unwitnessed", genOpts{kinds: []string{"script"}, nWdrl: 1, perturb: []string{"drop-vkey"}}, false},
 		{"collateral owner missing", genOpts{kinds: []string{"script"}, collKind: []string{"key"}, perturb: []string{"wrong-key"}}, true},
@@ -471,6 +555,23 @@ func corpus(r *vh.Rng) []txCase {
 		{"required signer one bit off a witnessed key", genOpts{kinds: []string{"key"}, nReq: 1, nearReq: true, perturb: []string{}}, true},
 		{"input owner one bit off a witnessed key", genOpts{kinds: []string{"keynear", "key"}, perturb: []string{}}, false},
 		{"collateral owner one bit off a witnessed key", genOpts{kinds: []string{"key"}, collKind: []string{"keynear"}, perturb: []string{}}, true},
+		{"collateral IS the script-locked input, unrelated witness", genOpts{kinds: []string{"script"}, collKind: []string{"=0"}, perturb: []string{"extra-vkey"}}, true},
+		{"collateral IS the script-locked input, other input key-locked", genOpts{kinds: []string{"key", "script"}, collKind: []string{"=1"}, perturb: []string{}}, true},
+		{"collateral IS the key-locked input, witnessed", genOpts{kinds: []string{"key"}, collKind: []string{"=0"}, perturb: []string{}}, true},
+		{"collateral IS the key-locked input, owner replaced by unrelated witness", genOpts{kinds: []string{"key"}, collKind: []string{"=0"}, perturb: []string{"wrong-key"}}, true},
+		{"collateral IS the Byron input with bootstrap witness", genOpts{kinds: []string{"byron", "key"}, collKind: []string{"=0"}, perturb: []string{}}, true},
+		{"collateral IS the unresolved input, unrelated witness", genOpts{kinds: []string{"unresolved", "key"}, collKind: []string{"=0"}, perturb: []string{}}, true},
+		{"collateral IS the no-payment-credential input", genOpts{kinds: []string{"nopay", "key"}, collKind: []string{"=0"}, perturb: []string{}}, true},
+		{"collateral IS the nil-output input", genOpts{kinds: []string{"niloutput", "key"}, collKind: []string{"=0"}, perturb: []string{}}, true},
+		{"script UTxO is input, collateral and reference input", genOpts{kinds: []string{"script", "key"}, collKind: []string{"=0"}, refs: []string{"=0"}, perturb: []string{}}, true},
+		{"key UTxO is input, collateral and reference input", genOpts{kinds: []string{"key"}, collKind: []string{"=0"}, refs: []string{"=0"}, perturb: []string{}}, true},
+		{"script collateral is also reference input", genOpts{kinds: []string{"key"}, collKind: []string{"script"}, refs: []string{"c=0"}, perturb: []string{}}, true},
+		{"key collateral is also reference input, owner unwitnessed", genOpts{kinds: []string{"script"}, collKind: []string{"key"}, refs: []string{"c=0"}, perturb: []string{"wrong-key"}}, true},
+		{"key input is also reference input, owner unwitnessed", genOpts{kinds: []string{"key"}, refs: []string{"=0"}, perturb: []string{"wrong-key"}}, true},
+		{"dup input (untagged), script", genOpts{kinds: []string{"script", "key"}, dupIn: true, noTag: true, perturb: []string{}}, false},
+		{"dup input (untagged), key unwitnessed", genOpts{kinds: []string{"key"}, dupIn: true, noTag: true, perturb: []string{"wrong-key"}}, false},
+		{"dup collateral (untagged), script first", genOpts{kinds: []string{"key"}, collKind: []string{"script", "key"}, dupColl: true, noTag: true, perturb: []string{}}, true},
+		{"dup collateral (untagged), key", genOpts{kinds: []string{"script"}, collKind: []string{"key"}, dupColl: true, noTag: true, perturb: []string{}}, true},
 		{"required signer witnessed", genOpts{kinds: []string{"key"}, nReq: 2, perturb: []string{}}, true},
 	}
 	for _, e := range eras {
